@@ -175,39 +175,46 @@ func closureLabels(parent *ssa.Function) map[*ssa.Function][]string {
 			} else {
 				continue
 			}
-			for _, r := range refs {
-				lab := ""
+			var labelOf func(v ssa.Value, r ssa.Instruction, depth int) string
+			labelOf = func(v ssa.Value, r ssa.Instruction, depth int) string {
 				switch r := r.(type) {
 				case *ssa.Return:
-					lab = "return"
+					return "return"
 				case *ssa.Store:
-					if r.Val == ssa.Value(mc) {
+					if r.Val == v {
 						switch a := r.Addr.(type) {
 						case *ssa.Alloc:
-							lab = a.Comment
+							if a.Comment == "" {
+								return "return" // unnamed result slot
+							}
+							return a.Comment
 						case *ssa.FieldAddr:
 							st := derefType(a.X.Type()).Underlying().(*types.Struct)
-							lab = "field:" + st.Field(a.Field).Name()
+							return "field:" + st.Field(a.Field).Name()
 						}
 					}
 				case *ssa.Go:
-					lab = "go"
+					return "go"
 				case *ssa.Defer:
-					lab = "defer"
+					return "defer"
 				case *ssa.Call:
-					lab = "arg"
+					return "arg"
 				case *ssa.ChangeType:
-					lab = "conv"
-					if r.Referrers() != nil {
+					if depth < 3 && r.Referrers() != nil {
 						for _, rr := range *r.Referrers() {
-							if _, ok := rr.(*ssa.Return); ok {
-								lab = "return"
+							if l := labelOf(r, rr, depth+1); l != "" {
+								return l
 							}
 						}
 					}
+					return "conv"
 				case *ssa.MakeInterface:
-					lab = "iface"
+					return "iface"
 				}
+				return ""
+			}
+			for _, r := range refs {
+				lab := labelOf(mc, r, 0)
 				if lab == "" {
 					continue
 				}
